@@ -1,6 +1,10 @@
 import CharsetProof.Props.C03
+import CharsetProof.Props.C03b
 open Charset
 #print axioms C03_model_is_function
 #print axioms sigOf_perm
 #print axioms marks_prefixFree_now
 #print axioms C03_hash_sites_covered
+#print axioms strictSorted_ext
+#print axioms C03_unicode_ranges_order_free
+#print axioms C03_sorted_names_order_free
